@@ -3,7 +3,7 @@
    the segment sizes used by MultiHash.v are regenerated from SegmentedArray.h on every run (Gen_Segments.v),
    and all models are run against the real momo::DataTable / DataIndexes on every run. *)
 From Coq Require Import List ZArith Bool Permutation.
-From C07 Require Import TableSpec TableProofs NumModel MultiHash MultiHashProofs SegProofs IndexModel IndexProofs AtomicProofs RefineProofs ConsProofs ReachProofs TableOps SelectionModel.
+From C07 Require Import TableSpec TableProofs NumModel MultiHash MultiHashProofs SegProofs IndexModel IndexProofs AtomicProofs RefineProofs ConsProofs ReachProofs ConflictProofs TableOps SelectionModel ProjectModel.
 Import ListNotations.
 
 (* For EVERY history of table operations starting from the empty table (adds, inserts, whole-row and
@@ -422,3 +422,75 @@ Proof.
            (conj (upper_bound_is_count n ks k HL Lk Hs) (proj2 (bounds_delimit_equal_keys n ks k HL Lk)))).
 Qed.
 Print Assumptions C07_selection_bounds_are_equal_range.
+
+(* C07_conflict_row_is_witness THROUGH the L1 model: on an index state consistent with the table rows (L0 rows = map ct rs,
+   unique indexes = the column lists of the unique hashes in order) DataIndexes::AddRaw refuses exactly when
+   TableSpec.find_conflict does, naming the same row (position n, address nth n rs) and the same unique-index number j - the
+   first colliding index in index order; accepted means no collision; any failure step, order, R. *)
+Theorem C07_add_raw_refusal_agrees_with_spec :
+  forall ord R ct rs fl, (forall k, R k k = true) -> forall raw, ~ In raw rs ->
+  forall s, Forall (u_cons ct rs) (uhs s) ->
+  match snd (add_raw ord R ct fl s raw) with
+  | Accepted => find_conflict (map ucols (uhs s)) 0 (map ct rs) (ct raw) None = None
+  | Refused r j => exists n, find_conflict (map ucols (uhs s)) 0 (map ct rs) (ct raw) None = Some (n, j) /\ nth_error rs n = Some r
+  | Thrown => True
+  end.
+Proof. exact add_raw_refusal_agrees. Qed.
+Print Assumptions C07_add_raw_refusal_agrees_with_spec.
+
+(* the same for the whole-row UpdateRaw(old,new): the row being replaced (position nold) is skipped, as in TableSpec *)
+Theorem C07_update_raw_refusal_agrees_with_spec :
+  forall ord R ct rs fl, (forall k, R k k = true) -> NoDup rs -> forall raw, ~ In raw rs ->
+  forall old nold, nth_error rs nold = Some old ->
+  forall s, Forall (u_cons ct rs) (uhs s) ->
+  match snd (update_raw true true ord R ct fl s old raw) with
+  | Accepted => find_conflict (map ucols (uhs s)) 0 (map ct rs) (ct raw) (Some nold) = None
+  | Refused r j => exists n, find_conflict (map ucols (uhs s)) 0 (map ct rs) (ct raw) (Some nold) = Some (n, j) /\
+                             nth_error rs n = Some r /\ n <> nold
+  | Thrown => True
+  end.
+Proof. exact update_raw_refusal_agrees. Qed.
+Print Assumptions C07_update_raw_refusal_agrees_with_spec.
+
+(* Remove / Extract: RemoveRaw's only fallible phase consists of lookups (no allocation), so with bad_alloc as the only
+   failure it cannot fail; if the phase is nevertheless made to throw, the table, the contents, EVERY unique hash and every
+   multi hash are exactly what they were *)
+Theorem C07_remove_failure_unchanged :
+  forall R f st n keep_order, tgood st -> snd (t_remove R f st n keep_order) <> TOk ->
+  unchanged st (fst (t_remove R f st n keep_order)).
+Proof. exact t_remove_failure_unchanged. Qed.
+Print Assumptions C07_remove_failure_unchanged.
+
+(* keepRowNumber at table level: with the pvSetNumber / pvSetNumbers(beginNumber) calls each DataTable operation makes, the
+   number stored in every row is its position after EVERY table operation - accepted, refused or interrupted by an
+   allocation failure (the bookkeeping does not depend on static / dynamic column lists: the number lives in the raw) *)
+Theorem C07_table_row_numbers_are_positions :
+  (forall ord R f st n raw nums, nums = seq 0 (length (trows st)) -> n <= length (trows st) ->
+     let '(st', r) := t_insert ord R f st n raw in num_insert n (length (trows st)) r nums = seq 0 (length (trows st'))) /\
+  (forall ord R f st n new nums, nums = seq 0 (length (trows st)) -> n < length (trows st) ->
+     let '(st', r) := t_update_row ord R f st n new in num_update_row n r nums = seq 0 (length (trows st'))) /\
+  (forall ord R f st n c v nums, nums = seq 0 (length (trows st)) ->
+     let '(st', r) := t_update_col ord R f st n c v in nums = seq 0 (length (trows st'))) /\
+  (forall R f st n keep_order nums, nums = seq 0 (length (trows st)) -> n < length (trows st) ->
+     let '(st', r) := t_remove R f st n keep_order in num_remove n keep_order r nums = seq 0 (length (trows st'))) /\
+  (forall st keep, num_filter (length (trows (t_filter st keep))) = seq 0 (length (trows (t_filter st keep)))) /\
+  (forall st, @nil nat = seq 0 (length (trows (t_clear st)))).
+Proof. exact table_row_numbers_are_positions. Qed.
+Print Assumptions C07_table_row_numbers_are_positions.
+
+(* Project / ProjectDistinct: the loop of pvProject (keep the projected row unless the result table's unique hash refuses
+   it) computes TableSpec.project ... *)
+Theorem C07_project_loop_is_spec :
+  forall t distinct p cols, project_loop distinct cols p (rows t) [] = project t distinct p cols.
+Proof. exact project_loop_is_spec. Qed.
+Print Assumptions C07_project_loop_is_spec.
+
+(* ... which is the projection of the brute-force rows, and for ProjectDistinct its duplicate-free version with exactly
+   the same keys *)
+Theorem C07_project_is_projection_of_scan :
+  forall t p cols,
+  project t false p cols = map (proj cols) (filter (evalp p) (rows t)) /\
+  NoDup (project t true p cols) /\
+  (forall k, In k (project t true p cols) <-> In k (map (proj cols) (filter (evalp p) (rows t)))).
+Proof. exact project_is_projection_of_scan. Qed.
+Print Assumptions C07_project_is_projection_of_scan.
